@@ -34,6 +34,7 @@ MIN_REACH = {
     "roundtrips": {"quick": 250, "thorough": 4000},
     "lazy_loads": {"quick": 60, "thorough": 1000},
     "merge_twice": {"quick": 50, "thorough": 800},
+    "merges_adding_fractional_labels_to_integer_axis": {"quick": 4, "thorough": 60},
     "listings_checked": {"quick": 500, "thorough": 8000},
     "harvester_name_checks": {"quick": 50, "thorough": 800},
 }
@@ -193,6 +194,15 @@ def run_case(ctx, case):
                 sub = orig[keep]
                 part1 = sub.isel({split: slice(0, 1)})
                 part2 = sub.isel({split: slice(1, None)})
+                if case["coordt"][split] == "int" and case["dseed"] % 3 == 0:
+                    # the first save labels the axis with whole numbers, the second one adds fractional labels: what is
+                    # loaded back must carry the labels as given (not squeezed through the first file's integer dtype)
+                    newc = sub[split].values.astype(float)
+                    newc[1:] += 0.5
+                    sub_f = sub.assign_coords({split: newc})
+                    part2 = sub_f.isel({split: slice(1, None)})
+                    sub = sub_f
+                    ctx.count("merges_adding_fractional_labels_to_integer_axis")
                 kw = {} if engine == "h5netcdf" and case["dseed"] % 2 else {"engine": engine}
                 if engine == "joblib":
                     kw = {"engine": "joblib"}
